@@ -62,6 +62,10 @@ class Project:
             os.chmod(p, f.mode)
             if mtimes and f.path in mtimes:
                 os.utime(p, (mtimes[f.path], mtimes[f.path]))
+        for link, target in (self.meta.get("symlinks") or {}).items():     # link path (relative to the root) -> target text
+            lp = rootp / link
+            lp.parent.mkdir(parents=True, exist_ok=True)
+            os.symlink(target, lp)
         return rootp
 
     # ---- (de)serialise for replay files --------------------------------------------
